@@ -117,10 +117,38 @@ Definition model_errpass rows (utext : string) req : string :=
   | _ => "BUILDERR"
   end.
 
+(* every format asked for the trees alone: entries per tree, read from the model's tree outputs *)
+Definition all_formats : list format := [EdgeId; Json; GeoJson; Wkt; Wkb].
+Definition format_name (f : format) : string :=
+  match f with EdgeId => "edge_id" | Json => "json" | GeoJson => "geo_json" | Wkt => "wkt" | Wkb => "wkb" end.
+Definition tree_out_count (o : tree_out Z Z) : nat :=
+  match o with
+  | TIds l => List.length l
+  | TRecs l => List.length l
+  | TFeats l => List.length l
+  | TWkt l | TWkb l => List.length l
+  end.
+Definition packed_list {A} (p : packed A) : list A :=
+  match p with PNull => [] | POne a => [a] | PMany l => l end.
+Definition model_tcount rows (utext : string) req (sr : search_result Z) : string :=
+  "tcount " ++ join " " (map (fun f =>
+    format_name f ++ ":" ++
+    match collect (build (traversal_from_file rows) (uuid_from_file utext)) [CTraversal None (Some f)] with
+    | Ok ps => match apply_output_processing state_ok req sr ps with
+               | Ok r => match r_tree r with
+                         | Some p => show_list show_nat (map tree_out_count (packed_list p))
+                         | None => "?no-tree"
+                         end
+               | _ => "E"
+               end
+    | _ => "E"
+    end) all_formats).
+
 Definition line_m (id : Z) (rows : list (option (list (Z * Z)))) (uuids : list string) (crlf trailing : bool)
            (req : request) (sr : search_result Z) (chains : list (list pcfg)) : string :=
   let utext := render_table uuids crlf trailing in
-  line "M" id (join " | " (map (model_chain rows utext req sr) chains ++ [model_errpass rows utext req])).
+  line "M" id (join " | " (map (model_chain rows utext req sr) chains
+                           ++ [model_errpass rows utext req; model_tcount rows utext req sr])).
 
 (* ---------- the specification line ---------- *)
 Section Spec.
@@ -215,10 +243,24 @@ Section Spec.
          end.
   Definition spec_errpass : string :=
     if s_rows_ok then show_fields "-" "-" "-" "-" "-" "-" else "BUILDERR".
+  (* cross-format agreement: every tree format has exactly as many entries as the tree has branches
+     - the same number under all five formats - unless the format needs a geometry that is missing *)
+  Definition spec_tcount (sr : search_result Z) : string :=
+    "tcount " ++ join " " (map (fun f =>
+      format_name f ++ ":" ++
+      match sr with
+      | SErr => "E"
+      | SOk _ trees =>
+          if negb s_rows_ok then "E"
+          else match s_tree_errors f trees with
+               | _ :: _ => "E"
+               | [] => show_list show_nat (map (@List.length _) trees)
+               end
+      end) all_formats).
 End Spec.
 
 (* the specification reads the identifier table as "row i of the file belongs to vertex i", blank and
    whitespace-only rows included; the line terminator style is irrelevant to it *)
 Definition line_s (id : Z) (rows : list (option (list (Z * Z)))) (uuids : list string) (crlf trailing : bool)
            (req : request) (sr : search_result Z) (chains : list (list pcfg)) : string :=
-  line "S" id (join " | " (map (spec_chain rows uuids req sr) chains ++ [spec_errpass rows])).
+  line "S" id (join " | " (map (spec_chain rows uuids req sr) chains ++ [spec_errpass rows; spec_tcount rows sr])).
